@@ -521,8 +521,14 @@ theorem Inv_step {st : St} (op : Op) (h : Inv st) : Inv (step st op).1 := by
       · exact Inv_ctrlPut _ (Inv_congr rfl rfl rfl h)
       · exact Inv_ctrlPut _ h
   | get o key => exact h
+  | exists_ o key => exact h
   | push r => exact Inv_notify r h
   | flush => exact Inv_congr rfl rfl rfl h
+  | putMany o rs =>
+    simp only [step]
+    split
+    · exact h
+    · exact Inv_congr rfl rfl rfl h
   | drain =>
     simp only [step]
     obtain ⟨ha, hc⟩ := h
@@ -811,8 +817,22 @@ theorem step_calls_from (st : St) (op : Op) : ∀ c ∈ (step st op).2.calls, Ca
         | ok p => obtain ⟨r, same⟩ := p; simpa using hc
       rw [hcalls] at this
       exact ctrlGet_from st key c this
+  | exists_ o key =>
+    simp only [step, ifaceExists] at hc
+    have hcalls := ifaceGetRec_calls st o key
+    cases hg : ifaceGetRec st o key with
+    | mk cs v =>
+      rw [hg] at hc hcalls
+      simp only [] at hcalls
+      have : c ∈ cs := by
+        cases v with
+        | error e => cases e <;> simpa using hc
+        | ok p => obtain ⟨r, same⟩ := p; simpa using hc
+      rw [hcalls] at this
+      exact ctrlGet_from st key c this
   | push r => simp [step] at hc
   | flush => simp [step] at hc
+  | putMany o rs => simp only [step] at hc; split at hc <;> simp at hc
   | drain => simp [step] at hc
   | drainOne id => simp [step] at hc
 
@@ -906,8 +926,10 @@ theorem step_hooks (st : St) (op : Op) :
       · exact (ctrlPut_hooks _ _).1
       · exact (ctrlPut_hooks _ _).1
   | get o key => rfl
+  | exists_ o key => rfl
   | push r => rfl
   | flush => rfl
+  | putMany o rs => simp only [step]; split <;> rfl
   | drain => rfl
   | drainOne id => rfl
 
